@@ -171,6 +171,13 @@ class Client:
                         return
                 elif k == "close":
                     self.close()
+                elif k == "shutdown-wr":
+                    # half-close: the server reads end-of-file after what was sent, the client keeps reading
+                    st = self.stream
+                    if st is not None and not st.closed and st.peer is not None:
+                        st.peer.eof = True
+                        self.note("half-closed")
+                        s.tick()
                 elif k == "reset":
                     self.do_reset()
                 elif k == "await-eof":
